@@ -484,13 +484,13 @@ def shard_text(name, shard):
             "Definition M := Eval vm_compute in mismatches 0 cases.\nPrint M.\n")
 
 
-def eval_streams(ck, by):
+def eval_streams(ck, by, big=False):
     """Evaluate every case in its Coq model (vm_compute), shards in parallel.
     Returns {stream: {case index: first differing op / code}} or None on failure."""
     from concurrent.futures import ThreadPoolExecutor
     jobs = []
     for name, cases in by.items():
-        SH = STREAMS[name]["shard"]
+        SH = STREAMS[name]["shard"] * (3 if big else 1)   # larger shards amortise coqc start-up in the thorough tier
         for s in range(0, len(cases), SH):
             jobs.append((name, s, cases[s:s + SH]))
     def work(job):
@@ -528,15 +528,15 @@ def run(tier, seed):
                        "fs model follows wazero where it departs from POSIX: pread/pwrite with a negative offset -> EIO, pwrite on an O_APPEND descriptor -> EIO, mkdir below a file -> ENOENT, rename of a path onto the identical path succeeds even if it does not exist"]
     proofs_ok = ck.proofs()
     quick = tier == "quick"
-    n_table = 150 if quick else 4000
+    n_table = 100 if quick else 4000
     if not proofs_ok:
         n_table *= 3
     binp, log = build_harness("c16")
     if not binp:
         ck.violation("harness-build", {"kind": "build"}, {"log": log[-3000:]}, no_input=True)
         return ck.finish()
-    n_dirs, n_scripts = (60, 5) if quick else (1500, 12)
-    n_fs = 300 if quick else 8000
+    n_dirs, n_scripts = (50, 4) if quick else (1200, 10)
+    n_fs = 250 if quick else 8000
     rc, out = sh([binp, "-seed", str(seed), "-table", str(n_table), "-dirs", str(n_dirs), "-scripts", str(n_scripts),
                   "-fs", str(n_fs), "-compiler-every", "10"], timeout=3000)
     by = {k: [] for k in STREAMS}
@@ -568,8 +568,10 @@ def run(tier, seed):
     ck.extra["rule"] = ("operation sequences generated from VERIF_SEED (random + boundary keys/buffers), executed on the real code; every case is evaluated by "
                         "the Coq model (vm_compute) and, independently, by a Python oracle stating the property on the observations; "
                         "non-trivial = more than two operations; distinct by (stream, ops)")
+    same = sum(1 for c in by.get("fs", []) for op, ob in zip(c["ops"], c["obs"]) if op[0] == "rename" and op[1] == op[2] and ob[0] == 0)
+    ck.extra["wazero_vs_posix"] = {"rename(p, p) returned success (POSIX: ENOENT when p does not exist; modelled as implemented)": same}
     reported = set()
-    allmism = eval_streams(ck, by)
+    allmism = eval_streams(ck, by, big=not quick)
     if allmism is None:
         return ck.finish()
     for name, cases in by.items():
